@@ -27,3 +27,5 @@ def rules(ctx):
     S.replaced_range_rules(ctx)
     S.survey_residue_rules(ctx)
     S.restore_commit_rules(ctx)
+    S.untracked_allocation_rules(ctx)
+    S.after_bound_rules(ctx)
